@@ -32,7 +32,9 @@ FLOORS = {"quick": {"scripts": 8000, "idle_comparisons": 150000, "subscribe_entr
                     "requests_at_tick_after": 2000, "requests_tick_adjacent": 4000, "stop_start_cycles": 3000, "requests_hopped_iterations": 8000}}
 
 FOREVER = 0xFFFFFF
-SERVERS = [("10.0.14.2", 30490), ("2001:db8::e2", 30490, 0, 0), ("10.0.14.3", 30490), ("2001:db8::e3", 30490, 0, 0)]
+SERVERS = [("10.0.14.2", 30490), ("2001:db8::e2", 30490, 0, 0), ("10.0.14.3", 30490), ("2001:db8::e3", 30490, 0, 0),
+           # two servers whose socket addresses differ in the scope id only; one that differs from the first in the port only
+           ("fe80::e4", 30490, 0, 2), ("fe80::e4", 30490, 0, 3), ("10.0.14.2", 30491)]
 # eventgroups: (sid, iid, maj, egid, sockname, proto)
 EGS = [(0x9001, 1, 1, 1, ("10.0.14.1", 5001), 17), (0x9001, 1, 1, 2, ("10.0.14.1", 5002), 6),
        (0x9002, 3, 2, 1, ("2001:db8::e1", 5003, 0, 0), 17), (0x9003, 0x10, 1, 0x20, ("2001:db8::e1", 5004, 0, 0), 6),
